@@ -190,3 +190,34 @@ func VerifSetStateIDSeqID(program nfsv4.Nfs4Program, clientID uint64, other uint
 	}
 	return false
 }
+
+// VerifSetNFS40StateIDSeqID sets the seqid of the NFSv4.0 open or lock
+// state ID whose "other" field (as seen on the wire) is given, provided
+// that no transaction of its open-owner is in progress. Like the two
+// setters above it only moves a counter to where 2^32 well-formed
+// requests would have taken it. It returns false if there is no such
+// state ID or the lock cannot be acquired without blocking.
+func VerifSetNFS40StateIDSeqID(program nfsv4.Nfs4Program, other [nfsv4.NFS4_OTHER_SIZE]byte, seqID uint32) bool {
+	p, ok := program.(*nfs40Program)
+	if !ok {
+		return false
+	}
+	if !p.lock.TryLock() {
+		return false
+	}
+	defer p.lock.Unlock()
+	var key regularStateIDOther
+	copy(key[:], other[stateIDOtherPrefixLength:])
+	if oofs, ok := p.openOwnerFilesByOther[key]; ok {
+		if oofs.openOwner.currentTransactionWait != nil {
+			return false
+		}
+		oofs.stateID.seqID = seqID
+		return true
+	}
+	if lofs, ok := p.lockOwnerFilesByOther[key]; ok {
+		lofs.stateID.seqID = seqID
+		return true
+	}
+	return false
+}
